@@ -316,7 +316,17 @@ func intBits(b *types.Basic) (bits int, signed bool) {
 
 // typeKey is a short, SMT-safe name for a type used in heap array names.
 func typeKey(t types.Type) string {
+	if b, ok := t.(*types.Basic); ok {
+		// byte and rune are aliases: one heap key per underlying kind
+		switch b.Kind() {
+		case types.Uint8:
+			return "uint8"
+		case types.Int32:
+			return "int32"
+		}
+	}
 	s := types.TypeString(t, func(p *types.Package) string { return p.Name() })
+	s = strings.ReplaceAll(s, "[]byte", "[]uint8")
 	s = strings.ReplaceAll(s, "github.com/santhosh-tekuri/raft/", "")
 	return smtName(s)
 }
